@@ -9,6 +9,10 @@ type nat =
 | O
 | S of nat
 
+type ('a, 'b) sum =
+| Inl of 'a
+| Inr of 'b
+
 (** val fst : ('a1 * 'a2) -> 'a1 **)
 
 let fst = function
@@ -5321,20 +5325,66 @@ let query_count qi =
   bind (query_walk qi) (fun w0 ->
     ret (fold_left (fun acc p0 -> add acc (snd p0)) w0 O))
 
+(** val entity_at_tables :
+    nat -> rel list -> bool -> nat list -> nat -> (ent, nat) sum mW **)
+
+let rec entity_at_tables index rels skip_empty tabs count =
+  match tabs with
+  | [] -> ret (Inr count)
+  | tid :: rest ->
+    bind (getT tid) (fun t ->
+      if (&&) skip_empty (Nat.eqb t.t_len O)
+      then entity_at_tables index rels skip_empty rest count
+      else bind (of_opt (tbl_matches t rels) ENil) (fun mt ->
+             if negb mt
+             then entity_at_tables index rels skip_empty rest count
+             else if Nat.ltb index (add count t.t_len)
+                  then bind
+                         (of_opt (nth_error t.t_ents (sub index count))
+                           EIndex) (fun e -> ret (Inl e))
+                  else entity_at_tables index rels skip_empty rest
+                         (add count t.t_len)))
+
 (** val query_entity_at : nat -> nat -> ent mW **)
 
 let query_entity_at qi index =
-  bind (query_walk qi) (fun w0 ->
-    let rec go l count =
-      match l with
-      | [] -> fail EIndex
-      | p0 :: rest ->
-        let (tid, len) = p0 in
-        if Nat.ltb index (add count len)
-        then bind (getT tid) (fun t ->
-               of_opt (nth_error t.t_ents (sub index count)) EIndex)
-        else go rest (add count len)
-    in go w0 O)
+  bind (getQ qi) (fun q ->
+    bind get (fun s ->
+      match q.q_cache with
+      | Some addr ->
+        bind (of_opt (nth_error s.w_cheap addr) EIndex) (fun e ->
+          bind (entity_at_tables index q.q_rels true e.ce_tables O) (fun r ->
+            match r with
+            | Inl x -> ret x
+            | Inr _ -> fail EIndex))
+      | None ->
+        bind (getF q.q_filter) (fun f ->
+          let rec go l count =
+            match l with
+            | [] -> fail EIndex
+            | aid :: rest ->
+              bind (getA aid) (fun a ->
+                if negb (filter_matches f a.a_mask)
+                then go rest count
+                else if negb (arch_has_rels a)
+                     then (match a.a_tables with
+                           | [] -> fail EIndex
+                           | t0 :: _ ->
+                             bind (getT t0) (fun t ->
+                               if Nat.ltb index (add count t.t_len)
+                               then of_opt
+                                      (nth_error t.t_ents (sub index count))
+                                      EIndex
+                               else go rest (add count t.t_len)))
+                     else bind (of_opt (arch_get_tables a q.q_rels) EIndex)
+                            (fun cand ->
+                            bind
+                              (entity_at_tables index q.q_rels false cand
+                                count) (fun r ->
+                              match r with
+                              | Inl x -> ret x
+                              | Inr c -> go rest c)))
+          in go (query_archetypes s q) O)))
 
 type hrel = nat * z
 
